@@ -15,7 +15,14 @@
                           w<k>e       write fails once with EINTR
                           g<k>        getrandom/getentropy fails (EIO)
                           l<k>        fgets fails (NULL, stream error flag set)
-                          c<k>        close/fclose reports failure (EIO) after really closing
+                          c<k>        close/fclose reports failure (EIO) after really closing (any descriptor)
+                          cw<k>       the same for the k-th close of a descriptor / stream opened for WRITING
+                          cr<k>       the same for the k-th close of a descriptor / stream opened read-only
+     C19_TTY=1          isatty(0) and isatty(1) return 1
+     C19_GETPASS=<list> getpass() does not touch the terminal: its k-th call returns the k-th element of the
+                        comma separated list - hex bytes, "-" (empty string) or NULL; past the end: NULL.
+                        The string is handed out in a heap block of exactly strlen+1 bytes (so that an
+                        address sanitizer sees any access beyond it); unset: the C library's getpass
      C19_REPORT=<file>  at exit the number of calls per class is written there
    The classes and the numbering are those of coq/Model/Clim.v (cls, oracle).
    Only calls made through the PLT are seen (the applications' own calls and
@@ -33,7 +40,7 @@
 #include <unistd.h>
 #include "c19_rand.h"
 
-enum { C_OPEN, C_READ, C_WRITE, C_RAND, C_GETS, C_CLOSE, C_UNLINK, NCLS };
+enum { C_OPEN, C_READ, C_WRITE, C_RAND, C_GETS, C_CLOSE, C_UNLINK, C_CLOSEW, C_CLOSER, C_GETPASS, NCLS };
 enum { K_NONE, K_FAIL, K_SHORT, K_EINTR };
 struct fault { int cls; long k; int kind; long n; int used; };
 static struct fault faults[64];
@@ -63,7 +70,10 @@ static void init(void)
         case 'w': f.cls = C_WRITE; break;
         case 'g': f.cls = C_RAND; break;
         case 'l': f.cls = C_GETS; break;
-        case 'c': f.cls = C_CLOSE; break;
+        case 'c': f.cls = C_CLOSE;
+                  if (s[1] == 'w') { f.cls = C_CLOSEW; ++s; }
+                  else if (s[1] == 'r') { f.cls = C_CLOSER; ++s; }
+                  break;
         default: f.cls = -1; break;
         }
         ++s;
@@ -103,9 +113,9 @@ __attribute__((destructor)) static void report(void)
     if (!p || !*p) return;
     fd = real_open(p, O_CREAT | O_TRUNC | O_WRONLY, 0600);
     if (fd < 0) return;
-    n = snprintf(buf, sizeof(buf), "open=%ld read=%ld write=%ld rand=%ld gets=%ld close=%ld unlink=%ld\n",
+    n = snprintf(buf, sizeof(buf), "open=%ld read=%ld write=%ld rand=%ld gets=%ld close=%ld unlink=%ld closew=%ld closer=%ld getpass=%ld\n",
                  counts[C_OPEN], counts[C_READ], counts[C_WRITE], counts[C_RAND], counts[C_GETS],
-                 counts[C_CLOSE], counts[C_UNLINK]);
+                 counts[C_CLOSE], counts[C_UNLINK], counts[C_CLOSEW], counts[C_CLOSER], counts[C_GETPASS]);
     real_write(fd, buf, n);
     real_close(fd);
 }
@@ -146,6 +156,17 @@ static int is_urandom(int fd)
 }
 
 /* ---- open ---------------------------------------------------------------- */
+/* descriptors (also those under FILE streams) that were opened for writing */
+static unsigned char wfd[1024];
+static void note_fd(int fd, int writing)
+{
+    if (fd >= 0 && fd < (int)sizeof(wfd)) wfd[fd] = (unsigned char)(writing ? 1 : 0);
+}
+static int is_wfd(int fd)
+{
+    return fd >= 0 && fd < (int)sizeof(wfd) && wfd[fd];
+}
+
 static int do_open(const char *name, int flags, mode_t mode, const char *sym)
 {
     int (*real)(const char *, int, ...) = (int (*)(const char *, int, ...))dlsym(RTLD_NEXT, sym);
@@ -157,7 +178,9 @@ static int do_open(const char *name, int flags, mode_t mode, const char *sym)
         return fd;
     }
     if (next_fault(C_OPEN)) { errno = EACCES; return -1; }
-    return real(name, flags, mode);
+    fd = real(name, flags, mode);
+    note_fd(fd, (flags & O_ACCMODE) != O_RDONLY);
+    return fd;
 }
 
 int open(const char *name, int flags, ...)
@@ -182,15 +205,21 @@ int creat(const char *name, mode_t mode)
 FILE *fopen(const char *name, const char *mode)
 {
     FILE *(*real)(const char *, const char *) = (FILE *(*)(const char *, const char *))dlsym(RTLD_NEXT, "fopen");
+    FILE *fp;
     if (next_fault(C_OPEN)) { errno = EACCES; return 0; }
-    return real(name, mode);
+    fp = real(name, mode);
+    if (fp) note_fd(fileno(fp), strpbrk(mode, "wa+") != 0);
+    return fp;
 }
 
 FILE *fopen64(const char *name, const char *mode)
 {
     FILE *(*real)(const char *, const char *) = (FILE *(*)(const char *, const char *))dlsym(RTLD_NEXT, "fopen64");
+    FILE *fp;
     if (next_fault(C_OPEN)) { errno = EACCES; return 0; }
-    return real(name, mode);
+    fp = real(name, mode);
+    if (fp) note_fd(fileno(fp), strpbrk(mode, "wa+") != 0);
+    return fp;
 }
 
 /* ---- read / write -------------------------------------------------------- */
@@ -274,8 +303,15 @@ int close(int fd)
     if (!real) real = (int (*)(int))dlsym(RTLD_NEXT, "close");
     init();
     if (fd <= 2) return real(fd);
-    r = real(fd);
-    if (next_fault(C_CLOSE)) { errno = EIO; return -1; }
+    {
+        int w = is_wfd(fd);
+        struct fault *f1, *f2;
+        note_fd(fd, 0);
+        r = real(fd);
+        f1 = next_fault(C_CLOSE);
+        f2 = next_fault(w ? C_CLOSEW : C_CLOSER);
+        if (f1 || f2) { errno = EIO; return -1; }
+    }
     return r;
 }
 
@@ -286,8 +322,16 @@ int fclose(FILE *fp)
     if (!real) real = (int (*)(FILE *))dlsym(RTLD_NEXT, "fclose");
     init();
     if (fp == stdin || fp == stdout || fp == stderr) return real(fp);
-    r = real(fp);
-    if (next_fault(C_CLOSE)) { errno = EIO; return EOF; }
+    {
+        int fd = fileno(fp);
+        int w = is_wfd(fd);
+        struct fault *f1, *f2;
+        note_fd(fd, 0);
+        r = real(fp);
+        f1 = next_fault(C_CLOSE);
+        f2 = next_fault(w ? C_CLOSEW : C_CLOSER);
+        if (f1 || f2) { errno = EIO; return EOF; }
+    }
     return r;
 }
 
@@ -298,4 +342,49 @@ int unlink(const char *name)
     init();
     ++counts[C_UNLINK];
     return real(name);
+}
+
+/* ---- terminal ------------------------------------------------------------- */
+int isatty(int fd)
+{
+    static int (*real)(int);
+    const char *t = getenv("C19_TTY");
+    if (!real) real = (int (*)(int))dlsym(RTLD_NEXT, "isatty");
+    if (t && *t == '1' && (fd == 0 || fd == 1)) return 1;
+    return real(fd);
+}
+
+static int hexv(int c)
+{
+    if (c >= '0' && c <= '9') return c - '0';
+    if (c >= 'a' && c <= 'f') return c - 'a' + 10;
+    if (c >= 'A' && c <= 'F') return c - 'A' + 10;
+    return -1;
+}
+
+char *getpass(const char *prompt)
+{
+    static char *(*real)(const char *);
+    static char *last;
+    const char *s = getenv("C19_GETPASS");
+    const char *e;
+    long k;
+    size_t n, i;
+    init();
+    if (!s) {
+        if (!real) real = (char *(*)(const char *))dlsym(RTLD_NEXT, "getpass");
+        return real(prompt);
+    }
+    k = counts[C_GETPASS]++;
+    while (k > 0 && *s) { while (*s && *s != ',') ++s; if (*s == ',') ++s; else break; --k; }
+    if (k > 0 || !*s) return 0;
+    for (e = s; *e && *e != ','; ++e) ;
+    if ((size_t)(e - s) == 4 && !strncmp(s, "NULL", 4)) return 0;
+    n = (e - s == 1 && *s == '-') ? 0 : (size_t)(e - s) / 2;
+    free(last);                               /* like the C library, one buffer that the next call reuses */
+    last = (char *)malloc(n + 1);
+    if (!last) return 0;
+    for (i = 0; i < n; ++i) last[i] = (char)(hexv(s[2 * i]) * 16 + hexv(s[2 * i + 1]));
+    last[n] = 0;
+    return last;
 }
